@@ -246,7 +246,17 @@ def witness_name(ip, hint="wname"):
     return nm
 
 
+def install_bounded_order(reg):
+    reg.bounded_checks.setdefault("C16", []).append({
+        "name": "natural-order", "script": "bounded_order.py", "timeout": 300,
+        "bound": "6 pools of names (vector elements with 1-3 digit indices, matrix elements, suffixed scalars, mixed prefixes, two "
+                 "vectors) x 4 creation / mention orders; Problem.variables compared with an independent natural sort",
+        "why": "that _natural_sort_key orders names numerically inside digit runs is string processing (a regular-expression split) "
+               "outside the executor's theories; the proof side only shows that the list is sorted by that key"})
+
+
 def install_vars(reg, src):
+    install_bounded_order(reg)
     from .seqtheory import OCCV, VLEN, register_vector, named_exists, named_forall, seqs, _once
     from .compiler_c import names_of_varlist
     EX = "optyx.core.expressions"
